@@ -229,7 +229,7 @@ def judge_contained(obs, m):
 
 # ------------------------------------------------------------------------ C03
 
-def _named_sets(m, ex):
+def _named_sets(m, ex, existing=()):
     """IDs the message names, per side.  Returns (level, before_named, after_named,
     moved) where *_named are sets of IDs whose elements are excluded from the frame
     on that side and moved are IDs whose elements must themselves be unchanged."""
@@ -238,7 +238,9 @@ def _named_sets(m, ex):
     pay = set(x for x in m.payload_ids() if x is not None)
     tgt = m.target[1] if (m.target and m.target[0] == 'id') else None
     if k in ('StoryAppend', 'StoryInsert', 'EAStoryInsert'):
-        return set(), pay, set()
+        # a carried story whose ID already exists is a duplicate that inserts skip:
+        # the existing story is not named by the message
+        return set(), pay - set(existing), set()
     if k in ('StoryReplace', 'EAStoryReplace'):
         return ({tgt} if tgt else set()), pay | ({tgt} if tgt else set()), set()
     if k == 'StorySend':
@@ -249,7 +251,7 @@ def _named_sets(m, ex):
     if k in ('StoryMove', 'EAStoryMove', 'EAStorySwap', 'ItemMoveMultiple', 'EAItemMove', 'EAItemSwap'):
         return src, src, src
     if k in ('ItemInsert', 'EAItemInsert'):
-        return set(), pay, set()
+        return set(), pay - set(existing), set()
     if k in ('ItemReplace', 'EAItemReplace'):
         return ({tgt} if tgt else set()), pay | ({tgt} if tgt else set()), set()
     return set(), set(), set()
@@ -323,7 +325,14 @@ def judge_frame(obs, ex, m):
             fail('collateral', d)
         return fails
 
-    nb, na, moved = _named_sets(m, ex)
+    if m.level == 'story':
+        existing = [story_id(c) for c in rcb if c.tag == 'story']
+        if k == 'StoryAppend' and set(existing) & set(m.payload_ids()):
+            return fails        # duplicate story IDs: outside the stated domain
+    else:
+        sb0 = xmlcmp.find_story(rb, ex.addressed) if ex.addressed else None
+        existing = [item_id(c) for c in sb0 if c.tag == 'item'] if sb0 is not None else []
+    nb, na, moved = _named_sets(m, ex, existing)
     if m.level == 'story':
         fb = _frame(rcb, 'story', story_id, nb)
         fa = _frame(rca, 'story', story_id, na)
